@@ -33,7 +33,7 @@ GEN_FILES = ["GenConc"]
 DRIVERS = ["conc"]
 THEOREMS = ["C11_serial_if_atomic", "C11_serial_is_sequential", "C11_atomic_loses_nothing",
             "C11_locked_loses_nothing", "C11_lost_update_refuted", "C11_notes_lost_refuted",
-            "C11_commit_loses_checkpoint_refuted", "C11_no_phantoms", "C11_no_duplicates",
+            "C11_commit_loses_checkpoint_refuted", "C11_stale_base_refuted", "C11_no_phantoms", "C11_no_duplicates",
             "C11_worktree_isolated", "C11_checkpoints_in_two_worktrees", "C11_storage_paths_distinct",
             "C11_known_exact", "C11_two_appends_exact", "C11_nonvacuous", "C11_two_worktrees_example",
             "C11_paths_example"]
@@ -73,6 +73,9 @@ ASSUMPTIONS = [
 K1 = "C11-K1 lock-free read-modify-write of checkpoints.jsonl loses concurrent checkpoints"
 K2 = "C11-K2 lock-free read-modify-write of rewrite_log loses concurrent rewrite events"
 K3 = "C11-K3 concurrent `git notes add` on the shared refs/notes/ai (no compare-and-swap, errors swallowed) loses a commit's note"
+
+K4 = ("C11-K4 a checkpoint whose base commit was resolved before a concurrent commit of the same worktree writes to the "
+      "retired working log of the old base: the reported edit is lost")
 
 TOOL = "toolx"
 W0, B0 = 0, 7          # model names of the worktree / base commit used in controlled runs
@@ -336,6 +339,62 @@ def sc_rewrite_log(args):
         shutil.rmtree(sim.base, ignore_errors=True)
 
 
+# ------------------------------------------------------------------ scenario: a checkpoint racing a commit, same worktree
+def sc_commit_vs_checkpoint(args):
+    """worktree with a committed-to-be AI edit (f0, session s1); an agent reports a second edit (f1, session s2)
+    while `git commit` runs: the checkpoint process is started first (it resolves the base commit), then the commit;
+    the commit's refresh of the working log (pc-read, pc-write) and the checkpoint's append (cp-read, cp-write) are
+    released in `sched` (thread 0 = commit, thread 1 = checkpoint).  Afterwards f1 is committed too: its note must
+    attribute the agent's line (the reported edit is present and intact)."""
+    base, idx, sched, pre_steps = args
+    sim = Sim(base, f"cv{idx}")
+    try:
+        sim.init({"f0.txt": "base 0\n", "f1.txt": "base 1\n"})
+        parent = sim.head()
+        sim.write("f0.txt", "base 0\nai line 0\n")
+        rc, _, err = sim.checkpoint_ai("s1", ["f0.txt"])
+        if rc != 0:
+            return {"idx": idx, "error": "checkpoint failed " + err[-200:]}
+        sim.realgit("add", "f0.txt")
+        sim.write("f1.txt", "base 1\nai line 1\n")
+        p1 = Proc(sim, "k", ckpt_argv(sim, "s2", ["f1.txt"]), sim.repo, ["cp-read", "cp-write"])
+        if p1.wait() != "reached":
+            return {"idx": idx, "error": "checkpoint did not reach cp-read " + str(p1.finish())}
+        p0 = Proc(sim, "c", [sim.binary, "commit", "-q", "-m", "c"], sim.repo, ["pc-read", "pc-write"],
+                  env_extra={"GIT_AI": "git"})
+        if p0.wait() != "reached":
+            p1.finish(kill_if_held=True)
+            return {"idx": idx, "error": "commit did not reach pc-read " + str(p0.finish())}
+        wl = os.path.join(sim.repo, ".git", "ai", "working_logs")
+        init = read_cps(os.path.join(wl, parent, "checkpoints.jsonl")) or []
+        err = drive([p0, p1], sched)
+        rcs = [p0.finish(), p1.finish()]
+        if err:
+            return {"idx": idx, "error": err + " " + str(rcs)}
+        c1 = sim.head()
+        old = read_cps(os.path.join(wl, "old-" + parent, "checkpoints.jsonl"))
+        note1 = note_lines(sim, c1, sim.repo)
+        sim.realgit("add", "f1.txt")
+        sim.git("commit", "-q", "-m", "c2")
+        note2 = note_lines(sim, sim.head(), sim.repo)
+        want1 = {"f0.txt": {session_hash(TOOL, "s1"): [2]}}
+        want2 = {"f1.txt": {session_hash(TOOL, "s2"): [2]}}
+        # model schedule: pc-read = the commit's steps up to and including the read of the working log
+        msched, cnt = [], [0, 0]
+        for t in sched:
+            if t == 0:
+                msched += [0] * (pre_steps[0] if cnt[0] == 0 else pre_steps[1])
+            else:
+                msched += [1]
+            cnt[t] += 1
+        body = (f"((commit {W0} {B0} 101 1 11 ()) (appcp {W0} {B0} 2 ((1 1)))) ({' '.join(map(str, msched))}) "
+                f"(((cp {W0} {B0}) {sx_cps(init)}))")
+        return {"idx": idx, "sched": sched, "init": init, "retired_log": old, "note1_ok": note1 == want1,
+                "edit_present": note2 == want2, "note2": note2, "model_in": body, "rcs": [r[0] for r in rcs]}
+    finally:
+        shutil.rmtree(sim.base, ignore_errors=True)
+
+
 # ------------------------------------------------------------------ oracle scenarios (free running)
 def sc_stress(args):
     """n parallel `git-ai checkpoint` processes on n different files of one worktree."""
@@ -507,17 +566,20 @@ def sc_checkpoint_vs_commit(args):
 
 
 def py_known(points, n, sched, read_pt, write_pt):
-    """Known_C11 for n threads that each run `points` once: does some write use a register that is
-    older than another write (the same predicate as Model/Conc.v stale_free, re-implemented)"""
+    """Known_C11 for n threads that each run `points` once (or points[t] if a list of lists): does some write
+    use a register that is older than another write (the predicate of Model/Conc.v stale_free, re-implemented)"""
     fresh, cnt, known = set(), [0] * n, False
+    per = points if points and isinstance(points[0], list) else [points] * n
+    reads = read_pt if isinstance(read_pt, (list, tuple)) else [read_pt]
+    writes = write_pt if isinstance(write_pt, (list, tuple)) else [write_pt]
     for t in sched:
-        if cnt[t] >= len(points):
+        if cnt[t] >= len(per[t]):
             continue
-        pt = points[cnt[t]]
+        pt = per[t][cnt[t]]
         cnt[t] += 1
-        if pt == read_pt:
+        if pt in reads:
             fresh.add(t)
-        elif pt == write_pt:
+        elif pt in writes:
             if t not in fresh:
                 known = True
             fresh = set()
@@ -570,7 +632,7 @@ def run(ctx):
     for sch in (s2r if not quick else s2r):
         items.append((base, len(items), 2, "run", sch, 1))
     s3 = interleavings([2, 2, 2])
-    pick3 = s3 if not quick else r.shuffle(s3)[:14]
+    pick3 = s3 if not quick else r.shuffle(s3)[:30]
     for sch in pick3:
         items.append((base, len(items), 3, "append", sch, r.below(3)))
     if not quick:
@@ -672,8 +734,58 @@ def run(ctx):
     if k2_witness:
         known.append(K2)
 
+    # ---------------------------------------------------------------- (C) controlled: a checkpoint racing a commit (same worktree)
+    n_ev = 1 if facts.get("ev_locked") == 1 else 2
+    n_rf = 1 if facts.get("refresh_locked") == 1 else 2
+    n_nt = 1 if facts.get("notes_locked") == 1 else 2
+    pre = n_ev + 1 + (n_rf - 1)                       # append_event, peek, read of the working log
+    total = n_ev + 1 + n_rf + 2 + n_nt + 1
+    items = [(base, i, sch, (pre, total - pre)) for i, sch in enumerate(s2)]
+    res = C.parallel_map(sc_commit_vs_checkpoint, items, workers=min(C.NCPU, 6))
+    good = [x for x in res if "error" not in x]
+    errs = [x for x in res if "error" in x]
+    model = {}
+    if ctx.model_ok:
+        model = C.run_cases(C.driver_path("conc"), "c11-run", [(str(x["idx"]), x["model_in"]) for x in good])
+    mism, k4_witness, k1b_witness = [], None, None
+    CV = [["pc-read", "pc-write"], ["cp-read", "cp-write"]]
+    for x in good:
+        evaluations += 1
+        distinct.add(("cv", tuple(x["sched"])))
+        dist["commit-vs-checkpoint-same-worktree"] = dist.get("commit-vs-checkpoint-same-worktree", 0) + 1
+        pk = py_known(CV, 2, x["sched"], ["pc-read", "cp-read"], ["pc-write", "cp-write"])
+        # position of the checkpoint's write relative to the commit's write
+        order = [(t, sum(1 for u in x["sched"][:i] if u == t)) for i, t in enumerate(x["sched"])]
+        cp_write_after_pc_write = order.index((1, 1)) > order.index((0, 1))
+        m = parse_model(model[str(x["idx"])]) if str(x["idx"]) in model and model[str(x["idx"])].startswith("(") else None
+        if m is not None and (m["known"] == 1) != pk:
+            mism.append(f"schedule {x['sched']}: Known_C11 model {m['known']} vs controller {pk}")
+        if m is not None and not cp_write_after_pc_write and m["cp"].get((W0, B0)) != x["retired_log"]:
+            mism.append(f"schedule {x['sched']}: working log real {x['retired_log']} model {m['cp'].get((W0, B0))}")
+        if not x["note1_ok"]:
+            violations.append((f"note of the commit wrong under schedule {x['sched']}", {"kind": "commit-vs-checkpoint", **x}))
+        if not x["edit_present"]:
+            if pk:
+                k1b_witness = k1b_witness or {"schedule": x["sched"], "threads": CV, "working_log": x["retired_log"]}
+            elif cp_write_after_pc_write:
+                k4_witness = k4_witness or {"schedule": x["sched"], "threads": CV, "note_of_follow_up_commit": x["note2"]}
+            else:
+                violations.append((f"reported edit lost under schedule {x['sched']} outside the known classes",
+                                   {"kind": "commit-vs-checkpoint", **x}))
+        if len(cov_samples) < 7 and not x["edit_present"]:
+            cov_samples.append({"case": "checkpoint racing a commit (same worktree)", "schedule": x["sched"], "threads": CV,
+                                "Known_C11": pk, "edit_present_afterwards": x["edit_present"]})
+    obligations.append((f"tie:correspondence Model/Conc.v vs a real commit racing a real checkpoint on one working log ({len(good)} schedules)",
+                        ctx.model_ok and not mism and not errs and len(good) > 0,
+                        "; ".join(mism[:3]) + ("; engine: " + errs[0]["error"][-200:] if errs else "")
+                        + ("" if ctx.model_ok else "model did not build")))
+    if k1b_witness and K1 not in known:
+        known.append(K1)
+    if k4_witness:
+        known.append(K4)
+
     # ---------------------------------------------------------------- oracle: free-running checkpoints in one worktree
-    rounds = 6 if quick else 60
+    rounds = 8 if quick else 60
     items = [(base, i, r.pick([8, 12, 16])) for i in range(rounds)]
     res = C.parallel_map(sc_stress, items, workers=2)
     stress_lost = 0
@@ -778,7 +890,8 @@ def run(ctx):
         "controlled_schedules_with_loss": n_lost_sched,
         "stress_rounds_with_loss": stress_lost,
         "commit_outcomes": outcomes,
-        "known_witnesses": {"C11-K1": k1_witness, "C11-K2": k2_witness, "C11-K3": k3_witness},
+        "known_witnesses": {"C11-K1": k1_witness, "C11-K1(post_commit refresh)": k1b_witness, "C11-K2": k2_witness,
+                            "C11-K3": k3_witness, "C11-K4": k4_witness},
     }
     return {"obligations": obligations, "violations": violations, "known_seen": known,
             "searched": f"{evaluations} scenarios with real concurrent processes: all interleavings of the sync points of two "
